@@ -162,6 +162,7 @@ func checkC10(c *Ctx) {
 	c10BuildChains(c)
 	c10SigFrom(c)
 	c10Host(c)
+	c10PoolContains(c)
 	// FX inputs: nothing reachable from Verify writes memory reachable from its arguments (certificates,
 	// options incl. the requested key usages, pools, chains under construction), with named exceptions
 	if v := c.Fn("x509", "(*Certificate).Verify"); v != nil {
@@ -586,4 +587,65 @@ func pointerLikeTop(t types.Type) bool {
 		return true
 	}
 	return false
+}
+
+// c10PoolContains: "this certificate is in the pool" means the whole certificate is: CertPool.contains answers true
+// only through Certificate.Equal (a comparison of the complete DER encodings). Verify's "the leaf is itself a trusted
+// root" shortcut and AddCert's de-duplication both rest on it; comparing less (name, key) lets a look-alike of a
+// root be accepted without any signature check and drops cross-certificates.
+func c10PoolContains(c *Ctx) {
+	rule := "G-C10-contains"
+	f := c.Fn("x509", "(*CertPool).contains")
+	eq := c.Fn("x509", "(*Certificate).Equal")
+	if f == nil || eq == nil {
+		c.Missing(rule, "x509.(*CertPool).contains / (*Certificate).Equal", "methods", "not found")
+		return
+	}
+	rawBoth := func(call *ssa.Call) bool { // bytes.Equal(a.Raw, b.Raw)
+		if calleeID(&call.Call) != "bytes.Equal" || len(call.Call.Args) != 2 {
+			return false
+		}
+		for _, a := range call.Call.Args {
+			ld, ok := a.(*ssa.UnOp)
+			if !ok {
+				return false
+			}
+			fa, ok := ld.X.(*ssa.FieldAddr)
+			if !ok || fieldName(fa.X.Type(), fa.Field) != "Raw" || !strings.HasSuffix(fa.X.Type().String(), "x509.Certificate") {
+				return false
+			}
+		}
+		return true
+	}
+	// Equal compares the complete encodings
+	c.Evals++
+	okEq := false
+	for _, b := range eq.Blocks {
+		if ret, ok := b.Instrs[len(b.Instrs)-1].(*ssa.Return); ok && len(ret.Results) == 1 {
+			if call, ok := ret.Results[0].(*ssa.Call); ok && rawBoth(call) {
+				okEq = true
+			} else {
+				okEq = false
+				break
+			}
+		}
+	}
+	c.Check(okEq, rule, fname(eq), "Equal compares the complete DER encodings", "", "Certificate.Equal does not return bytes.Equal(c.Raw, other.Raw)", eq.Pos())
+	// contains: true only through Equal (or the same comparison inline)
+	c.Evals++
+	cut := map[edge]bool{}
+	nEq := 0
+	for _, ifi := range ifsOf(f) {
+		call, ok := ifi.Cond.(*ssa.Call)
+		if !ok {
+			continue
+		}
+		if call.Call.StaticCallee() == eq || rawBoth(call) {
+			cut[edge{ifi.Block(), ifi.Block().Succs[0]}] = true
+			nEq++
+		}
+	}
+	spec := resultSpec{0, "bool"}
+	r, _ := canReachSuccess(f.Blocks[0], nil, successExits(f, spec), cut)
+	c.Check(nEq > 0 && !r, rule, fname(f), "answers true only when a pool entry Equals the certificate", "", "CertPool.contains can return true without Certificate.Equal having matched a pool entry (it compares less than the whole certificate): a certificate that merely shares a root's name and key is treated as that root, and distinct cross-certificates are dropped as duplicates", f.Pos())
 }
